@@ -323,7 +323,19 @@ def rule_copy_shallow(ctx: RuleContext, p: Program, rid: str) -> None:
                             containers.add(sa)
             reassigned = {t.attr for a in walk_no_nested(dc.node) if isinstance(a, ast.Assign) for t in a.targets
                           if isinstance(t, ast.Attribute) and isinstance(t.value, ast.Name) and t.value.id == cname}
-            shared = sorted(containers - reassigned)
+            # copy.copy(self) also copies what SUBCLASSES keep: an attribute a subclass fills in __init__ from an argument that is not schema
+            # (the owning model, a parent) stays a reference into the original document unless the copy replaces it
+            for sub in [k for k in p.classes if c in k.mro and k is not c and not k.module.name.endswith('_test') and '__deepcopy__' not in k.attrs]:
+                sinit = sub.attrs.get('__init__')
+                if not isinstance(sinit, FuncInfo):
+                    continue
+                sparams = set(sinit.params[1:])
+                for a in walk_no_nested(sinit.node):
+                    if isinstance(a, ast.Assign) and len(a.targets) == 1 and self_attr(a.targets[0]) and isinstance(a.value, ast.Name) and a.value.id in sparams:
+                        sa = self_attr(a.targets[0])
+                        if sa not in reassigned and sa not in ('_field', '_inner_field', '_notify') and not sa.endswith('field'):
+                            containers.add(f'{sa} (set by {sub.name}.__init__ from its argument `{a.value.id}`)')
+            shared = sorted(x for x in containers if x.split(' ')[0] not in reassigned)
             ctx.check(not shared, rid, site, f'copy.copy(self) shares {shared}',
                       f'{c.name}.__deepcopy__ starts from copy.copy(self) and does not replace {shared}: the copy and the original keep one '
                       f'{"list" if len(shared) == 1 else "set of containers"} between them, so registering or notifying through one acts on the other '
